@@ -195,6 +195,19 @@ def concrete_check(dst, instance, consts=(), src_sigs=None):
     return problems
 
 
+def bridge_inputs(dst, dst_stms, inputs, extra_pos=None):
+    """an input predicate that the program also derives (e.g. guesses with a choice): its instance facts get their own
+    predicate, otherwise derived atoms would count as part of the instance in the "does not depend on choices" clause"""
+    inp = [tuple(x) for x in inputs]
+    for name, ar in sorted(set(inp) & astutil.defined_sigs(dst_stms)):
+        vs = ",".join(f"X{i}" for i in range(ar))
+        dst += f"\n{name}{'(' + vs + ')' if ar else ''} :- __inst_{name}{'(' + vs + ')' if ar else ''}."
+        inp = [x for x in inp if x != (name, ar)] + [(f"__inst_{name}", ar)]
+        if extra_pos is not None and f"{name}/{ar}" in extra_pos:
+            extra_pos[f"__inst_{name}/{ar}"] = extra_pos[f"{name}/{ar}"]
+    return dst, inp
+
+
 def run_task(task):
     t0 = time.time()
     res = {"id": task["id"], "enabled": task["enabled"], "status": None}
@@ -234,6 +247,11 @@ def run_task(task):
     if not order_preds(sigs) and not any(n.startswith(DOM) for n, _ in sigs):
         res.update(status="skip", reason="no domain/order predicate emitted")
         return res
+    dst, inp = bridge_inputs(dst, dst_stms, r["inp"], extra_pos)
+    if inp != list(r["inp"]):
+        r["inp"] = inp
+        dst_stms = astutil.parse(dst)
+        stms = astutil.parse(text + "\n" + "\n".join(str(x) for x in dst_stms if "__inst_" in str(x)))
     unis = pick_universes(stms, dst_stms, r["inp"], (), task.get("tier", "quick"), extra_pos, 1)
     if not unis:
         res.update(status="skip", reason="source does not ground")
@@ -259,7 +277,7 @@ def run_task(task):
     res["solver_s"] = 0.0
     known = []
     kf6 = [e for e in task.get("kf", []) if e["match"].get("kind") == "dom_negated_false"]
-    anti = sorted(astutil.antimonotone_domain_sigs(dst_stms, DOM))
+    anti = sorted(astutil.antimonotone_domain_sigs(dst_stms, DOM, astutil.parse(task["text"])))
     timeout = 20 if task.get("tier", "quick") == "quick" else 90
     for name, enc, x in queries:
         assumed = False
@@ -345,6 +363,7 @@ def replay(path, cfg):
     inst = open(os.path.join(path, "instance.lp")).read()
     r = ngorun.run_ngo(src, [tuple(x) for x in cfg["in"]], [], cfg["enabled"])
     dst = "\n".join(r["stms"])
+    dst, _ = bridge_inputs(dst, astutil.parse(dst), [tuple(x) for x in cfg["in"]])
     problems = concrete_check(dst, inst, src_sigs=astutil.program_sigs(astutil.parse(src)))
     print("result of the current ngo:\n" + dst)
     print(json.dumps(problems, indent=1))
